@@ -87,6 +87,7 @@ func isCallTo(in ssa.Instruction, pats ...string) bool {
 // Instrs iterates over all instructions of fn (not nested closures).
 func Instrs(fn *ssa.Function, f func(ssa.Instruction)) {
 	if len(helpers) > 0 {
+		setRoot(fn)
 		// bodies of transparent helpers (adopt.go) count as part of the function
 		instrsWithHelpers(fn, f, map[*ssa.Function]bool{})
 		return
@@ -726,7 +727,7 @@ func Derives(v ssa.Value, pred VP) bool {
 					if q != p {
 						continue
 					}
-					for _, s := range h.sites {
+					for _, s := range sitesInContext(h) {
 						if i < len(s.Common().Args) && rec(s.Common().Args[i], d-1) {
 							return true
 						}
@@ -798,6 +799,7 @@ type RetAlt struct {
 // a phi result is split per incoming edge (with the edge's conditions); a
 // result spilled to a local because of defer is resolved to the stores.
 func ReturnAlts(fn *ssa.Function, idx int) []RetAlt {
+	setRoot(fn)
 	var out []RetAlt
 	for _, b := range fn.Blocks {
 		if len(b.Instrs) == 0 || b == fn.Recover {
@@ -1318,13 +1320,17 @@ func unhelp(v ssa.Value) ssa.Value {
 		// a parameter of a transparent helper with one call site: the argument
 		if p, isP := v.(*ssa.Parameter); isP {
 			h := helperFor(p.Parent())
-			if h == nil || len(h.sites) != 1 {
+			if h == nil {
+				break
+			}
+			sites := sitesInContext(h)
+			if len(sites) != 1 {
 				break
 			}
 			moved := false
 			for j, q := range p.Parent().Params {
-				if q == p && j < len(h.sites[0].Common().Args) {
-					v = h.sites[0].Common().Args[j]
+				if q == p && j < len(sites[0].Common().Args) {
+					v = sites[0].Common().Args[j]
 					moved = true
 				}
 			}
